@@ -106,6 +106,6 @@ def run(c):
         "executed natively at pointer width 8 only (x86-64); pointer width 4 is covered by the C01/C02 theorems and the abi-trace correspondence, not by execution",
         "the independent host is the Lean transcription of the canonical ABI (Spec.lean via m_host), not wasmtime",
         "hook H3 replaces the unreachable!() import shims by extern symbols on non-wasm targets; the wasm32 text of the bindings is untouched",
-        "worlds avoid the one shape whose generated Rust still does not compile (fixed-length lists of non-Copy elements as import parameters): recorded finding, replayed from corpus/C05-nocompile.txt",
+        "no shape is avoided by the world generator any more (the three does-not-compile findings of C05 were repaired in /repo; their worlds are must-pass corpus entries)",
         "future/stream/error-context types are out of scope here (async runtime: C08, C18-C23)",
     ]
